@@ -162,6 +162,9 @@ func CompareResult(ref *RefResult, got Outcome) *Mismatch {
 // reference's. An execution whose input never became known (a lazily streaming body whose
 // output nobody consumed) matches any reference execution of the same node.
 func CompareExecsExact(ref *RefResult, execs []Exec) *Mismatch {
+	if ref.Incomplete {
+		return nil
+	}
 	want := map[string][]string{} // path -> inputs
 	for _, e := range ref.Execs {
 		want[e.Path] = append(want[e.Path], e.In)
@@ -210,6 +213,9 @@ func CompareExecsExact(ref *RefResult, execs []Exec) *Mismatch {
 // reference's supersteps in order: every body call of step k precedes every body
 // call of step k+1, each step is a permutation of the reference's step set.
 func CheckStepStructure(spec *GraphSpec, ref *RefResult, execs []Exec) *Mismatch {
+	if ref.Incomplete {
+		return nil
+	}
 	top := map[string]bool{}
 	for _, n := range spec.Nodes {
 		top[n.Key] = true
@@ -260,6 +266,9 @@ func CheckStepStructure(spec *GraphSpec, ref *RefResult, execs []Exec) *Mismatch
 // observed executions ⊆ reference executions (same input); every ancestor of END
 // that ran in the reference must have executed.
 func CompareExecsAllPred(ref *RefResult, execs []Exec) *Mismatch {
+	if ref.Incomplete {
+		return nil
+	}
 	// multiset per path: nodes of all-predecessor graphs appear at most once in the reference,
 	// nodes of a nested Pregel graph may legitimately appear several times
 	want := map[string][]string{}
@@ -296,6 +305,9 @@ func CompareExecsAllPred(ref *RefResult, execs []Exec) *Mismatch {
 
 // MissingMustRun returns reference executions that had to happen (ancestors of END) but did not.
 func MissingMustRun(spec *GraphSpec, ref *RefResult, execs []Exec) *Mismatch {
+	if ref.Incomplete {
+		return nil
+	}
 	seen := map[string]bool{}
 	for _, e := range execs {
 		seen[e.Node] = true
